@@ -127,6 +127,11 @@ func checkC20(e *Env) {
 		}
 		subsetOf(e, "private-key-types", e.P.Pos(sup.Pos()), dedup(asserted), dedup(cases), "key types the sign-bundle sub-commands require", "key types ParsePrivateKey can return")
 	}
+	// (c') a PEM block that is not a usable key is skipped, not fatal: key files
+	// written by "openssl ecparam -genkey" start with an EC PARAMETERS block
+	if ppk := e.fn("internal/signingalgorithm.ParsePrivateKey"); ppk != nil {
+		skipUnusableBlocks(e, ppk)
+	}
 	// (d) output files: what the tools write replaces the previous content
 	outputFiles(e)
 	e.R.Floor("PATHURL", 4)
@@ -280,4 +285,86 @@ func fsDerived(v ssa.Value, d int, seen map[ssa.Value]bool) string {
 		return fsDerived(x.X, d+1, seen)
 	}
 	return ""
+}
+
+// skipUnusableBlocks (rule KEYFILE): ParsePrivateKey walks the PEM blocks of
+// the file in a loop, and the failing side of each attempt to parse a block as
+// a key leads back to the loop header, never to a return: only malformed PEM
+// or running out of blocks ends the search.
+func skipUnusableBlocks(e *Env, fn *ssa.Function) {
+	key := "internal/signingalgorithm.ParsePrivateKey:unusable-block-is-skipped"
+	var header *ssa.BasicBlock
+	for _, body := range naturalLoops(fn) {
+		for _, b := range fn.Blocks {
+			if !body[b] {
+				continue
+			}
+			for _, in := range b.Instrs {
+				if c, ok := in.(*ssa.Call); ok && prov.CalleeName(&c.Call) == "pem.Decode" {
+					// the header is the block of the loop that dominates all others
+					for _, h := range fn.Blocks {
+						if body[h] {
+							dom := true
+							for x := range body {
+								if !h.Dominates(x) {
+									dom = false
+								}
+							}
+							if dom {
+								header = h
+							}
+						}
+					}
+				}
+			}
+		}
+	}
+	if header == nil {
+		e.R.Fail("KEYFILE", key, e.P.Pos(fn.Pos()), "ParsePrivateKey does not loop over the PEM blocks of the key file: a leading block that is not a key (EC PARAMETERS) ends the search")
+		return
+	}
+	n := 0
+	for _, b := range fn.Blocks {
+		ifi, ok := b.Instrs[len(b.Instrs)-1].(*ssa.If)
+		if !ok {
+			continue
+		}
+		for side, succ := range b.Succs {
+			failing := false
+			for _, f := range gate.EdgeFacts(ifi.Cond, side == 0) {
+				if f.Kind == gate.FErrSet && f.Call != nil && strings.Contains(prov.CalleeName(&f.Call.Call), "PrivateKeyBlock") {
+					failing = true
+				}
+			}
+			if !failing {
+				continue
+			}
+			n++
+			// every path from succ reaches the loop header before any return
+			seen := map[*ssa.BasicBlock]bool{}
+			stack := []*ssa.BasicBlock{succ}
+			bad := ""
+			for len(stack) > 0 && bad == "" {
+				x := stack[len(stack)-1]
+				stack = stack[:len(stack)-1]
+				if x == header || seen[x] {
+					continue
+				}
+				seen[x] = true
+				if _, isRet := x.Instrs[len(x.Instrs)-1].(*ssa.Return); isRet {
+					bad = e.P.InstrPos(x.Instrs[len(x.Instrs)-1])
+				}
+				stack = append(stack, x.Succs...)
+			}
+			k := fmt.Sprintf("%s#%d", key, n)
+			if bad == "" {
+				e.R.OK("KEYFILE", k, e.P.InstrPos(ifi), "a block that does not parse as a key is skipped: the search continues with the next block")
+			} else {
+				e.R.Fail("KEYFILE", k, e.P.InstrPos(ifi), "a block that does not parse as a key ends the search (return at "+bad+") although later blocks may hold the key")
+			}
+		}
+	}
+	if n == 0 {
+		e.R.Fail("KEYFILE", key, e.P.Pos(fn.Pos()), "no tested attempt to parse a PEM block as a private key found")
+	}
 }
